@@ -1,0 +1,29 @@
+//go:build verif
+
+// Package verifhook provides the instrumentation points used by the external
+// verification harness (build tag `verif`).
+package verifhook
+
+import "sync/atomic"
+
+// Func is called at every hook point: point names the place, obj is the object
+// the code is operating on (mailbox, future, context ...), arg an optional detail.
+type Func func(point string, obj any, arg any)
+
+var current atomic.Pointer[Func]
+
+// Set installs (or, with nil, removes) the hook function.
+func Set(f Func) {
+	if f == nil {
+		current.Store(nil)
+		return
+	}
+	current.Store(&f)
+}
+
+// At marks a verification hook point.
+func At(point string, obj any, arg any) {
+	if f := current.Load(); f != nil {
+		(*f)(point, obj, arg)
+	}
+}
